@@ -128,13 +128,23 @@ def judge(case, ctx, clean=False, medium=None):
     steps = dp.steps(frames)
     faulted = [f for f in frames if f["fate"] != "deliver"]
     dep_steps = [s for s in steps if not s["release"]]
-    claim = all(len(s["faults"]) <= 1 for s in dep_steps)
+    # a fault inside a step that carries a timeout extension is outside the
+    # claim: the NFC-DEP rules make an RTOX answer to NACK / ATN a protocol
+    # error, so such a step cannot be repaired by retransmission
+    tox_faulted = [s for s in dep_steps
+                   if any(f["kind"] == "TOX" for f in s["faults"])]
+    claim = all(len(s["faults"]) <= 1 for s in dep_steps) and not tox_faulted
 
     ctx.label("brs=%d" % cfg["brs"], "start=" + cfg.get("start", "106A"),
               base, "nad" if cfg.get("nad") is not None else "nonad",
               "faults=%d" % min(len(faulted), 5))
     for f in faulted:
         ctx.label("fault:" + dp.describe(f))
+    ntox = len([f for f in frames if f["kind"] == "TOX" and f["dir"] == "T>I"])
+    if ntox:
+        ctx.label("rtox-requests=%d" % min(ntox, 4))
+    if tox_faulted:
+        ctx.label("fault-in-rtox-step")
     nt = False
     for i, s in enumerate(dep_steps):
         for f in s["faults"]:
@@ -219,7 +229,15 @@ def judge(case, ctx, clean=False, medium=None):
         # (c) transparency
         complete = r.i_got == ress and r.t_got == reqs
         t_err = r.t_err is not None and not r.t_final_call
-        t_none = r.t_end == "none" and not r.t_final_call
+        t_none = r.t_end in ("none", "rtox-none") and not r.t_final_call
+        for idx, v, got in r.rtox:
+            # under faults an earlier confirmation may be repeated; only a
+            # fault-free conversation pins the value
+            if got is not None and got != v and not faulted:
+                flag(ctx, base, Violation(
+                    "rtox-value", "timeout extension %d requested for "
+                    "response %d, send_timeout_extension() returned %r"
+                    % (v, idx, got)))
         if complete and not r.i_err and not t_err:
             ctx.label("outcome:complete")
         else:
@@ -278,6 +296,11 @@ def st_cfg():
         "release": st.booleans(),
         "fill": st.one_of(st.just("shake"), st.just("shake"),
                           st.sampled_from([0xF0, 0xD4, 0xD5, 0x00, 0xFF])),
+        # response timeout extensions the target application asks for before
+        # it answers: [response index, RTOX value], up to 3 for one response
+        "rtox": st.one_of(st.just([]), st.just([]), st.lists(st.tuples(
+            st.integers(0, 8), st.sampled_from([1, 1, 2, 7, 59])),
+            min_size=1, max_size=3).map(sorted)),
     })
 
 
@@ -345,9 +368,17 @@ FIXED = [
     ({"did": 14, "nad": 0, "lri": 1, "lrt": 1},
      [[2, 0], [0, 1], [0, 1], [0, 1], [0, 1]],
      [[0, 1], [0, 1], [0, 1], [0, 1], [0, 1]]),
+    # the target application asks for more time before responses 0, 1 (two
+    # requests) and 3 (a chained response)
+    ({"rtox": [[0, 1], [1, 2], [1, 59], [3, 7]]},
+     [[0, 1], [2, 1], [0, 1], [0, 1], [0, 1]],
+     [[0, 1], [0, 1], [0, 1], [2, 1], [0, 1]]),
+    ({"rtox": [[0, 3], [2, 1]], "did": 3, "lri": 0, "lrt": 0,
+      "start": "212F"},
+     [[0, 1], [0, 1], [1, 1], [0, 1]], [[1, 1], [0, 1], [0, 1], [0, 1]]),
 ]
 
-DEFAULT_CFG = {"brs": 0, "start": "106A", "lri": 1, "lrt": 1, "rwt": 8,
+DEFAULT_CFG = {"rtox": [], "brs": 0, "start": "106A", "lri": 1, "lrt": 1, "rwt": 8,
                "did": None, "nad": None, "gbi": b"", "gbt": b"", "seed": 0,
                "release": True, "fill": "shake"}
 
@@ -385,6 +416,10 @@ def enum_configs(tier, seed):
             return [0, rng.choice([1, 2, 30, 200, 300, 700])]
         out.append({"cfg": cfg, "req": [size() for _ in range(n)],
                     "res": [size() for _ in range(n)]})
+        if rng.random() < 0.3:
+            cfg["rtox"] = sorted([rng.randrange(0, 3),
+                                  rng.choice([1, 2, 59])]
+                                 for _ in range(rng.choice([1, 1, 2, 3])))
     return out, rng
 
 
